@@ -36,6 +36,11 @@ func (x *Exec) symbolicParam(st *State, name string, t types.Type) Val {
 
 func (x *Exec) newEnv(fn *ssa.Function, fr *Frame, fc *FnContract, params []Val, st, old *State) *EvalEnv {
 	env := &EvalEnv{X: x, Fn: fn, Fr: fr, Vars: map[string]Val{}, St: st, Old: old, Sigs: x.sigs}
+	if fc != nil {
+		for k, v := range fc.Consts {
+			env.Vars[k] = v
+		}
+	}
 	for i, p := range fn.Params {
 		if i < len(params) {
 			env.Vars[p.Name()] = params[i]
@@ -46,6 +51,40 @@ func (x *Exec) newEnv(fn *ssa.Function, fr *Frame, fc *FnContract, params []Val,
 		env.ResNames = append(env.ResNames, res.At(i).Name())
 	}
 	return env
+}
+
+// ExpandTable instantiates a table contract: the dispatcher is executed symbolically with each concrete key, and
+// the function value it returns gets the template clauses with the key bound to that constant.
+func ExpandTable(p *Program, db *ContractDB, fc *FnContract) ([]*FnContract, error) {
+	if fc.Fn == nil {
+		return nil, fmt.Errorf("dispatcher of %s not found", fc.Name)
+	}
+	cw, ok := convWidths[fc.KeyType]
+	if !ok {
+		return nil, fmt.Errorf("%s: unknown key type %s", fc.Name, fc.KeyType)
+	}
+	var out []*FnContract
+	for _, k := range fc.Keys {
+		x := NewExec(p, db, fc.Fn)
+		st := &State{PC: TTrue, Heap: map[string]Term{}, Brk: BVInt(globalRefLimit, 32)}
+		kt := fc.Fn.Params[0].Type()
+		res, err := x.CallFunction(fc.Fn, []Val{TV{T: BVInt(k, cw.w), Typ: kt}}, st, "", 0)
+		x.Close()
+		if err != nil {
+			return nil, fmt.Errorf("%s: dispatcher with key %d: %v", fc.Name, k, err)
+		}
+		fv, ok := res[0].(FuncV)
+		if !ok || len(fv.Bindings) != 0 {
+			return nil, fmt.Errorf("%s: dispatcher with key %d does not return a plain function (got %T)", fc.Name, k, res[0])
+		}
+		inst := *fc
+		inst.IsTable = false
+		inst.Fn = fv.Fn
+		inst.Name = fmt.Sprintf("%s[%s=%d]", FuncDisplayName(fv.Fn), fc.KeyName, k)
+		inst.Consts = map[string]Val{fc.KeyName: TV{T: BVInt(k, cw.w), Typ: kt}}
+		out = append(out, &inst)
+	}
+	return out, nil
 }
 
 // VerifyFunction generates all obligations of fn under its contract fc.
@@ -78,6 +117,9 @@ func VerifyFunction(p *Program, db *ContractDB, fc *FnContract) *FnResult {
 	}
 	if v := fc.Opts["unroll"]; v != "" {
 		x.MaxUnroll, _ = strconv.Atoi(v)
+	}
+	if v := fc.Opts["slow"]; v != "" {
+		x.C.timeoutFactor, _ = strconv.ParseFloat(v, 64)
 	}
 	st := &State{PC: TTrue, Heap: map[string]Term{}}
 	st.Brk = x.C.Fresh("brk0", SRef)
@@ -210,7 +252,16 @@ func VerifyFunction(p *Program, db *ContractDB, fc *FnContract) *FnResult {
 		}
 	}
 	x.C.sizeHints = hints.String()
+	// second preference: pointers/maps nested inside the arguments are nil (fully reconstructible inputs)
+	var nh strings.Builder
+	for _, q := range x.C.queries {
+		if strings.HasSuffix(q.Label, ".ref") && strings.HasPrefix(q.Label, "*") {
+			fmt.Fprintf(&nh, "(assert (= %s #x00000000))\n", q.T.S)
+		}
+	}
+	x.C.nilHints = nh.String()
 	x.C.queries = append(x.C.queries, x.modelQueries(nil, res.ResultTerms)...)
+	x.C.queries = append(x.C.queries, x.postQueries(res.ParamTerms, st)...)
 	x.C.lateDecls = append([]string{}, x.C.decls[n0:]...)
 	x.C.decls = x.C.decls[:n0]
 	return res
